@@ -302,6 +302,25 @@ def f29_centrallybin_plus_select():
         return False
 
 
+def f30_bin_centers_arange_length():
+    h = hg.Bin(231, -0.555, 7.345, lambda x: x)
+    return len(h.bin_centers()) != h.num_bins()
+
+
+def f31_sparse_grid_ranges_length():
+    import random
+    random.seed(2)
+    for _ in range(60):
+        wx, wy, ox = round(random.uniform(0.05, 3), 2), round(random.uniform(0.05, 3), 2), round(random.uniform(-3, 3), 2)
+        h = hg.SparselyBin(wx, lambda d: d[0], hg.SparselyBin(wy, lambda d: d[1]), origin=ox)
+        for _ in range(12):
+            h.fill((random.uniform(-5, 5), random.uniform(-5, 5)))
+        xr, yr, g = h.xy_ranges_grid()
+        if len(xr) != g.shape[1] + 1 or len(yr) != g.shape[0] + 1:
+            return True
+    return False
+
+
 if __name__ == "__main__":
     present = 0
     for name, fn in sorted((k, v) for k, v in globals().items() if k.startswith("f") and k[1:3].isdigit()):
